@@ -965,6 +965,37 @@ class FileWeaver:
         if where == "start":
             self.add(toks[lo].end, 0, text, "ghost", marks)
             return
+        if where == "end" and arg.startswith("stmt"):
+            # end of the block addressed by PATH (stmt/block/stmt/block...): robust against
+            # statements added to or removed from that block
+            path = [int(x) for x in arg.split()[1].split("/")]
+            if len(path) % 2 != 0:
+                raise WeaveError("hint %s in %s: `end stmt` path must address a block" % (c.cid, key))
+            cur_lo, cur_hi = lo, hi
+            idx = 0
+            while idx < len(path):
+                stmts = self.split_stmts(cur_lo, cur_hi)
+                n, k = path[idx], path[idx + 1]
+                if n < 1 or n > len(stmts):
+                    raise WeaveError("lost anchor: hint %s in %s: block path %s" % (c.cid, key, arg))
+                a, b = stmts[n - 1]
+                blocks = []
+                q = a
+                while q <= b:
+                    t = toks[q]
+                    if t.kind == PUNCT and t.text in "([":
+                        q = match_close(toks, q)
+                    elif t.kind == PUNCT and t.text == "{":
+                        e = match_close(toks, q)
+                        blocks.append((q, e))
+                        q = e
+                    q += 1
+                if k < 1 or k > len(blocks):
+                    raise WeaveError("lost anchor: hint %s in %s: block path %s" % (c.cid, key, arg))
+                cur_lo, cur_hi = blocks[k - 1]
+                idx += 2
+            self.add(toks[cur_hi].pos, 0, text, "ghost", marks)
+            return
         if where == "end":
             stmts = self.split_stmts(lo, hi)
             fn_level = (lo == self._cur_fn_open)
